@@ -374,19 +374,28 @@ def _direct_unit(unit, rec):
   def fnr(o, s_):
     return rad.get_normalized_radiation_flux(rad.OrbitalTime(o, jnp.asarray(s_)[:, None, None]), jl, ja)
 
+  # the same two functions with caller-supplied (non-default, Mars-like) solar constants as plain floats
+  CM, CV = 586.2, 110.0
+
+  def frc(o, s_):
+    return rad.get_radiation_flux(rad.OrbitalTime(o, jnp.asarray(s_)[:, None, None]), jl, ja, mean_irradiance=CM, variation=CV)
+
+  def fnrc(o, s_):
+    return rad.get_normalized_radiation_flux(rad.OrbitalTime(o, jnp.asarray(s_)[:, None, None]), jl, ja, mean_irradiance=CM, variation=CV)
+
   for io in unit['ops']:
     o = float(ops[io])
     s = so.sin_altitude_points(o, sps[:, None, None], LON[None], LAT[None])
     night, day = s <= -BAND, s >= BAND
     rec.note('nodes_within_terminator_band', int(s.size - night.sum() - day.sum()))
     base = {}
-    for variant, fun, top in (('flux', fr, smax), ('normalized', fnr, 1.0)):
+    for variant, fun, top in (('flux', fr, smax), ('normalized', fnr, 1.0), ('flux[custom constants]', frc, CM + CV), ('normalized[custom constants]', fnrc, 1.0)):
       fl = magnitude(fun(o, sps))
       base[variant] = fl
       k = [('direct', variant, nop, io, nsp, j, nl) for j in range(nsp)]
       for j in range(nsp):
         rec.case(k[j], transitions=1, outcome=fl[j].tobytes(),
-                 sample={'function': 'get_radiation_flux' if variant == 'flux' else 'get_normalized_radiation_flux',
+                 sample={'function': 'get_radiation_flux' if variant.startswith('flux') else 'get_normalized_radiation_flux', 'constants': 'custom (586.2, 110.0)' if 'custom' in variant else 'default',
                          'orbital_phase': o, 'daily_phase': float(sps[j]), 'points': list(LON.shape), 'max': float(fl[j].max())})
       j = _first_true(~np.isfinite(fl).all(axis=(1, 2)))
       rec.check(j is None, 'direct_finite', k[j or 0], {'variant': variant})
@@ -409,6 +418,14 @@ def _direct_unit(unit, rec):
         j = int(np.argmax(np.abs(np.nan_to_num(fl2 - fl, nan=np.inf)).max(axis=(1, 2))))
         rec.close(fl2[j], fl[j], scale=top * 4 * so.TWO_PI, site='direct_periodic_in_phase', key=k2[j],
                   extra={'variant': variant, 'orbital_shift_2pi': do, 'daily_shift_2pi': ds})
+    for vn, vf, div in (('normalized[custom constants]', 'flux[custom constants]', CM + CV),):
+      j = int(np.argmax(np.abs(np.nan_to_num(base[vn] - base[vf] / div, nan=np.inf)).max(axis=(1, 2))))
+      rec.close(base[vn][j], base[vf][j] / div, scale=1.0, site='direct_normalized_is_flux_over_perihelion_constant',
+                key=('direct', vn, nop, io, nsp, j, nl))
+      # the custom-constant flux is the default-constant flux rescaled by S_custom(t) / S_default(t)
+      ratio = so.irradiance(o, CM, CV) / so.irradiance(o)
+      j = int(np.argmax(np.abs(np.nan_to_num(base[vf] - base['flux'] * ratio, nan=np.inf)).max(axis=(1, 2))))
+      rec.close(base[vf][j], base['flux'][j] * ratio, scale=CM + CV, site='direct_flux_scales_with_the_solar_constants', key=('direct', vf, nop, io, nsp, j, nl))
     j = int(np.argmax(np.abs(np.nan_to_num(base['normalized'] - base['flux'] / smax, nan=np.inf)).max(axis=(1, 2))))
     rec.close(base['normalized'][j], base['flux'][j] / smax, scale=1.0, site='direct_normalized_is_flux_over_perihelion_constant',
               key=('direct', 'normalized', nop, io, nsp, j, nl))
